@@ -20,15 +20,16 @@ UnitLen(s) == CASE s = "arr" -> 1 [] s = "obj" -> 5 [] s = "mixed" -> 6 [] s = "
 UnitLvl(s) == CASE s = "mixed" -> 2 [] OTHER -> 1
 Min(a, b) == IF a < b THEN a ELSE b
 
-TotalLen(r) == UnitLen(r.shape) * r.n + (IF r.closed THEN 1 + UnitLvl(r.shape) * r.n ELSE 0)
+PLvl(r) == IF r.plen > 0 THEN 1 ELSE 0          \* every prefix opens exactly one level and holds one completed value
+TotalLen(r) == r.plen + UnitLen(r.shape) * r.n + (IF r.closed THEN 1 + UnitLvl(r.shape) * r.n ELSE 0)
 Whole(r) == r.limit = 0 \/ TotalLen(r) < r.limit
 \* units visible in the examined header (limits are multiples of the unit length)
-UnitsSeen(r) == IF Whole(r) THEN r.n ELSE Min(r.n, r.limit \div UnitLen(r.shape))
-Depth(r) == UnitLvl(r.shape) * UnitsSeen(r)
+UnitsSeen(r) == IF Whole(r) THEN r.n ELSE Min(r.n, (r.limit - r.plen) \div UnitLen(r.shape))
+Depth(r) == PLvl(r) + UnitLvl(r.shape) * UnitsSeen(r)
 \* the header is a complete valid document
 \* "arrc" puts a comma where the innermost value must stand: malformed at every depth
 Malformed(r) == r.shape = "arrc" /\ r.closed /\ (Whole(r) \/ r.limit > UnitLen(r.shape) * r.n)
-Complete(r) == r.shape # "arrc" /\ r.closed /\ (Whole(r) \/ r.limit = TotalLen(r))
+Complete(r) == r.shape # "arrc" /\ r.plen = 0 /\ r.closed /\ (Whole(r) \/ r.limit = TotalLen(r))
 \* the header is a proper prefix of a valid document examined in truncated mode
 ValidPrefix(r) == ~Whole(r) /\ r.limit > 0 /\ ~Malformed(r)
 
